@@ -170,6 +170,7 @@ def run(chk):
     model = protolib.private_model()
     quick = chk.tier == "quick"
     rng = chk.rng.fork()
+    K = vlib.consts()
 
     def mk(atoms, flags=None):
         return Rules([{"name": "r%d" % i, "ns": (flags[i][2] if flags else 0), "g": (flags[i][0] if flags else 0),
@@ -492,6 +493,56 @@ def run(chk):
             if (offs or []) != exp or (kind == "M") != bool(exp):
                 chk.violation("regexp-reference", "rule %s on %d bytes: yara finds %s (%s), Python's re finds %s" % (name, len(buf), offs, kind, exp), replay)
 
+    # ------------------------------------------------------------ part 6: flags and timeout through every entry point
+    # non-default, mutually distinguishable (flags, timeout) pairs: swapping the two, or dropping the flags, shows in the
+    # transcript (which rules are reported; FAST_MODE keeps only the first match of a string used as a plain "$s").
+    # Timeouts never fire on these buffers, so the model's prediction depends on the flags only.
+    F_FAST, F_NOTRY = K["SCAN_FLAGS_FAST_MODE"], K["SCAN_FLAGS_NO_TRYCATCH"]
+    F_M, F_N = K["SCAN_FLAGS_REPORT_RULES_MATCHING"], K["SCAN_FLAGS_REPORT_RULES_NOT_MATCHING"]
+    PAIRS = [(F_M, 0), (0, F_N), (F_N, F_M), (F_M, F_N), (F_FAST, 0), (0, 1), (F_NOTRY, 60), (F_FAST | F_M, 1000), (F_M | F_N, 7),
+             (F_FAST | F_N, 2), (0, 7), (0, 1000), (F_NOTRY | F_N, 1), (0, 0)]
+    frules = mk([("S", 0), ("C", 0, 2), ("S", 1), ("F",), ("T",), ("S", 3), ("C", 3, 0), ("Z", 6)],
+                [(0, 0, 0), (0, 0, 0), (0, 0, 0), (0, 0, 0), (0, 1, 0), (0, 0, 1), (0, 0, 1), (1, 0, 1)])
+    FT = ["rmem", "rfile", "rfd", "rblocks", "smem", "sfile", "sfd", "sblocks"]
+    fcases, fmodel, fmeta = [], [], []
+    for bi, buf in enumerate([b"abcabc", b"abc", b"xx", b"bcabcabcab"]):
+        cmds = frules.commands()
+        for fl, to in PAIRS:
+            fmodel.append(model_cmd(frules, fl, "-", len(buf), [(0, buf, len(buf))], ""))
+            for e in FT:
+                cmds.append("ft %s %d %d %s" % (e, fl, to, vlib.hx(buf)))
+                fmeta.append(("f%d" % bi, buf, fl, to, e, len(fmodel) - 1))
+        fcases.append(("f%d" % bi, cmds))
+    fo, _ = vlib.run_cases(h, fcases, timeout=900)
+    fl_lines, _ = vlib.run_lines(model, fmodel, timeout=900)
+    flines = {cid: [l for l in fo.get(cid, []) if l.startswith("scan msgs=") or l.startswith("crash")] for cid, _ in fcases}
+    fpos = {}
+    n_ft = 0
+    for cid, buf, fl, to, e, mi_ in fmeta:
+        k = fpos.get(cid, 0)
+        fpos[cid] = k + 1
+        line = flines[cid][k] if k < len(flines[cid]) else "crash (no output)"
+        _, mfinal, _ = parse_model(fl_lines[mi_], frules)
+        exp = []
+        for m, r in [(m, None) for m in mfinal]:
+            if m[0] in "MN":
+                a = next(x["atom"] for x in frules.rules if x["name"] == m[2])
+                offs = m[3]
+                if (fl & F_FAST) and a[0] == "S" and offs:
+                    offs = offs[:1]           # STRING_FLAGS_SINGLE_MATCH strings keep their first match in fast mode
+                exp.append((m[0], m[1], m[2], offs))
+            else:
+                exp.append(m)
+        got = protolib.parse_scan(line)
+        n_ft += 1
+        gotc = None if got is None else [(m[0], m[1], m[2], m[3].get("$s")) if m[0] in "MN" else m for m in got[0]]
+        if got is None or gotc != exp or got[1] != 0:
+            chk.violation("args:" + e, "entry %s with flags=%d timeout=%d on %d bytes: transcript %s rc=%s, the model (flags=%d) says %s"
+                          % (e, fl, to, len(buf), gotc, None if got is None else got[1], fl, exp),
+                          {"rules": frules.describe(), "buffer_hex": vlib.hx(buf), "entry": e, "flags": fl, "timeout": to,
+                           "harness_commands": frules.commands() + ["ft %s %d %d %s" % (e, fl, to, vlib.hx(buf))],
+                           "model_command": fmodel[mi_], "impl": line, "model": fl_lines[mi_]})
+
     # ------------------------------------------------------------ part 2b: a REUSED scanner in the entry-point matrix, more than 64 rules
     # every scanner-level entry point (mem, file, fd, single-block iterator one-shot and resumed) is called on a scanner
     # that has just completed a DIFFERENT scan in which most rules - those with index >= 64 and >= 128 included -
@@ -813,9 +864,9 @@ def run(chk):
         "position_keeping": str(fin["keep"]), "rewinding": str(fin["naive"]), "first_block_lost": fin["keep"][1] != fin["naive"][1],
         "what": "capi.rst does not say that after a not-ready first() the scanner continues with next(); an iterator that "
                 "sets its position in first() before the readiness test loses block 0 on the retry"}
-    chk.note(evaluations=n_runs + n_entry + n_aband + n_ep + n_own + n_reused + n_guard + n_rx, distinct_nontrivial=len([d for d in distinct if "1" in d[2]]),
-             traces_validated_against_impl=n_runs + n_entry + n_aband + n_ep + n_own + n_reused + n_guard + n_rx, interrupted_runs=n_interrupted, conforming_patterns=n_conf,
-             patterns_outside_contract=n_nonconf, follow_up_scans=n_follow, entry_point_scans=n_entry, abandoned_scan_scenarios=n_aband, guarded_block_runs=n_guard, regexp_entry_scans=n_rx, reused_scanner_entry_scans=n_reused, owned_resource_scans=n_own, entrypoint_runs=n_ep, entrypoint_runs_interrupted_after_header_block=n_ep_after, observations=obs,
+    chk.note(evaluations=n_runs + n_entry + n_aband + n_ep + n_own + n_reused + n_guard + n_rx + n_ft, distinct_nontrivial=len([d for d in distinct if "1" in d[2]]),
+             traces_validated_against_impl=n_runs + n_entry + n_aband + n_ep + n_own + n_reused + n_guard + n_rx + n_ft, interrupted_runs=n_interrupted, conforming_patterns=n_conf,
+             patterns_outside_contract=n_nonconf, follow_up_scans=n_follow, entry_point_scans=n_entry, abandoned_scan_scenarios=n_aband, flags_timeout_scans=n_ft, guarded_block_runs=n_guard, regexp_entry_scans=n_rx, reused_scanner_entry_scans=n_reused, owned_resource_scans=n_own, entrypoint_runs=n_ep, entrypoint_runs_interrupted_after_header_block=n_ep_after, observations=obs,
              rule="one evaluation = one complete run (all calls until the scan completes) or one entry-point scan; distinct = different "
                   "(buffer, block partition incl. null-data blocks, file_size known?, not-ready pattern); non-trivial = at least one "
                   "not-ready answer")
